@@ -385,7 +385,7 @@ Section Leaves.
   Definition dim_value (o : option (Q * N)) : option value :=
     match o with Some (v, u) => Some (VDim v u) | None => None end.
 
-  (* lengthPercOrAuto, validation.go:1656 (margin-*) *)
+  (* lengthPercOrAuto, validation.go:1656 (margin longhands) *)
   Definition length_perc_or_auto (tokens : list tok) : option value :=
     match tokens with
     | [t] => match get_length t true true with
@@ -395,7 +395,7 @@ Section Leaves.
     | _ => None
     end.
 
-  (* lengthOrPercentage, validation.go:2334 (padding-*) *)
+  (* lengthOrPercentage, validation.go:2334 (padding longhands) *)
   Definition length_or_percentage (tokens : list tok) : option value :=
     match tokens with
     | [t] => dim_value (get_length t false true)
